@@ -1078,6 +1078,7 @@ class PathResult:
         self.observations: List[tuple] = []
         self.goals: set = set()
         self.taken: List[Any] = []
+        self.soft_inconclusive: List[str] = []  # obligations refuted by a model that cannot be replayed
 
 
 PATH_BUDGET_S = float(os.environ.get("SYMTDF_PATH_BUDGET_S", "150"))
